@@ -1,6 +1,7 @@
 import S2T.Drv.Util
 import S2T.Spec.Serial
 import S2T.Model.SerialState
+import S2T.Model.SerialHeap
 import S2T.Gen.Schema
 /-!
 Driver handler for C05.  Values travel as tagged JSON arrays:
@@ -184,6 +185,65 @@ def hist (j : Json) : Except String Json := do
     | .back r => Json.mkObj (emitRes r)
   return Json.mkObj [("outs", Json.arr (outs.map emitOut).toArray)]
 
+/-- op `c05.heap`: {"ops":[{"k":"deser","id":n,"j":JSON value} | {"k":"use","step":n,"how":"read"|"close"|"api-read","leaf":i|null}
+| {"k":"observe","step":n} | {"k":"ser",…}]} ↦ per op what the heap machine of `S2T/Model/SerialHeap.lean` (decoder `fresh`)
+says: the restored value, the bytes every read returns (or `ValueError`), `to_json()` of the restored object (or `ValueError`
+when one of its streams is closed) -/
+def heap (j : Json) : Except String Json := do
+  let ops ← getArr j "ops"
+  let mut st : S2T.SerialHeap.State := S2T.SerialHeap.State.empty
+  let mut objs : List (Nat × PyVal × List Nat) := []
+  let mut outs : Array Json := #[]
+  for o in ops do
+    let k ← getStr o "k"
+    if k == "deser" then
+      let id ← getNat o "id"
+      let v ← parseVal (← o.getObjVal? "j")
+      let r := deserializeExtraction S v
+      match r with
+      | .ok w =>
+        let a := S2T.SerialHeap.allocAll .fresh st (S2T.SerialHeap.leaves w)
+        st := a.1
+        objs := (id, w, a.2) :: objs
+      | .error _ => pure ()
+      outs := outs.push (Json.mkObj (emitRes r))
+    else if k == "use" then
+      let n ← getNat o "step"
+      let how ← getStr o "how"
+      match objs.find? (fun e => e.1 == n) with
+      | none => outs := outs.push (Json.mkObj [("noobj", Json.bool true)])
+      | some (_, _, addrs) =>
+        let sel : List Nat := match (o.getObjValAs? Nat "leaf").toOption with
+          | some i => (addrs.drop i).take 1
+          | none => addrs
+        let mut reads : Array Json := #[]
+        for a in sel do
+          let sops : List S2T.SerialHeap.SOp :=
+            if how == "read" then [.read] else if how == "close" then [.close] else [.rewind, .read]
+          let mut last : Except Err (List Nat) := .ok []
+          for sop in sops do
+            let r := S2T.SerialHeap.heapStep st.heap a sop
+            st := { st with heap := r.2 }
+            match last with
+            | .error _ => pure ()
+            | .ok _ => last := r.1
+          reads := reads.push (match last with
+            | .ok bs => jNats bs
+            | .error e => Json.str (errName e))
+        outs := outs.push (Json.mkObj [("reads", Json.arr reads)])
+    else if k == "observe" then
+      let n ← getNat o "step"
+      match objs.find? (fun e => e.1 == n) with
+      | none => outs := outs.push (Json.mkObj [("noobj", Json.bool true)])
+      | some (_, w, addrs) =>
+        if S2T.SerialHeap.observable st.heap addrs then
+          outs := outs.push (Json.mkObj [("j", emitVal (serializeExtraction true w))])
+        else
+          outs := outs.push (Json.mkObj [("err", Json.str "ValueError")])
+    else
+      outs := outs.push (Json.mkObj [])
+  return Json.mkObj [("outs", Json.arr outs)]
+
 def handle (op : String) (j : Json) : Option (Except String Json) :=
   match op with
   | "c05.rt" => some (rt j)
@@ -191,6 +251,7 @@ def handle (op : String) (j : Json) : Option (Except String Json) :=
   | "c05.cell" => some (cell j)
   | "c05.cli" => some (cli j)
   | "c05.hist" => some (hist j)
+  | "c05.heap" => some (heap j)
   | _ => none
 
 end S2T.Drv.C05
